@@ -142,6 +142,25 @@ func c19Hash(s string) string {
 	return hex.EncodeToString(h[:])
 }
 
+// c19Spell returns the hex string h the way any server may write it: in
+// lower case, in upper case, or with the case chosen per digit.  Hexadecimal
+// notation is case-insensitive, and the product's decoder accepts all.
+func c19Spell(rng *rand.Rand, h string) string {
+	switch rng.Intn(3) {
+	case 0:
+		return h
+	case 1:
+		return strings.ToUpper(h)
+	}
+	b := []byte(h)
+	for i, c := range b {
+		if c >= 'a' && c <= 'f' && rng.Intn(2) == 0 {
+			b[i] = c - 'a' + 'A'
+		}
+	}
+	return string(b)
+}
+
 func c19IsHex(s string) bool {
 	if s == "" {
 		return false
@@ -367,6 +386,12 @@ type c19Service struct {
 	malformedServed int
 	validServed     int
 
+	// notLowerServed counts valid hashes written with upper-case digits;
+	// decidingNotLower tells that, during the current check, the hash of an
+	// allowed sub-domain of the checked name was written that way.
+	notLowerServed   int
+	decidingNotLower bool
+
 	// failMode, when not empty, makes the service misbehave.
 	failMode string
 	// failedNow counts the requests of the current check that were served in
@@ -397,6 +422,17 @@ func (u *c19Service) Exchange(req *dns.Msg) (*dns.Msg, error) {
 					if len(l) == 4 && c19IsHex(l) {
 						strs = append(strs, u.db[l]...)
 					}
+				}
+			}
+		}
+	}
+	for i, h := range strs {
+		strs[i] = c19Spell(u.rng, h)
+		if strs[i] != h {
+			u.notLowerServed++
+			for _, c := range u.cur {
+				if c == h {
+					u.decidingNotLower = true
 				}
 			}
 		}
@@ -861,6 +897,7 @@ func c19RunHistory(rep *verifkit.Report, rng *rand.Rand, pool *c19Pool, selfColl
 			rep.Event("service_failure_windows:" + svc.failMode)
 		}
 		svc.failedNow = 0
+		svc.decidingNotLower = false
 
 		var got bool
 		var err error
@@ -1057,6 +1094,9 @@ func c19RunHistory(rep *verifkit.Report, rng *rand.Rand, pool *c19Pool, selfColl
 					rep.Event("blocked_verdicts_from_cache")
 				case got:
 					rep.Event("blocked_verdicts_after_lookup")
+					if svc.decidingNotLower {
+						rep.Event("blocked_after_lookup_with_matching_hash_written_in_upper_or_mixed_case")
+					}
 				case source == "no-question":
 					rep.Event("clean_verdicts_from_cache")
 				default:
@@ -1142,6 +1182,9 @@ func c19RunHistory(rep *verifkit.Report, rng *rand.Rand, pool *c19Pool, selfColl
 			if d.Unlisted {
 				detail += ":last-label-in-no-list"
 			}
+			if want == "blocked" && svc.decidingNotLower {
+				detail += ":matching-hash-written-in-upper-or-mixed-case"
+			}
 			rep.Violate(fmt.Sprintf("verdict:want-%s-got-%s:%s:%s%s", want, gotS, how, cc, detail),
 				fmt.Sprintf("Check(%q) = %s, but a fresh lookup in the service database gives %s (step %d of the history, %s)",
 					d.Name, gotS, want, len(trace), source),
@@ -1154,6 +1197,7 @@ func c19RunHistory(rep *verifkit.Report, rng *rand.Rand, pool *c19Pool, selfColl
 	}
 	rep.EventN("malformed_txt_strings_served", svc.malformedServed)
 	rep.EventN("valid_full_hashes_served", svc.validServed)
+	rep.EventN("valid_full_hashes_written_in_upper_or_mixed_case", svc.notLowerServed)
 	if sample {
 		w := witness(universe[0])(nil).(map[string]any)
 		delete(w, "host")
@@ -1202,6 +1246,7 @@ func TestVerifC19(t *testing.T) {
 		"malformed_txt_strings_served", "blocked_because_of_a_parent_domain",
 		"blocked_after_lookup_by_listed_ancestor_whose_prefix_equals_that_of_a_longer_subdomain",
 		"blocked_by_listed_bare_last_label_in_no_list", "blocked_single_label_names",
+		"blocked_after_lookup_with_matching_hash_written_in_upper_or_mixed_case",
 		"correct_verdicts_of_names_whose_last_label_is_in_no_list:clean",
 		"correct_verdicts_of_names_colliding_with_own_ancestor:clean",
 		"checks_during_service_failure:error",
